@@ -15,8 +15,10 @@ sys.path.insert(0, os.path.dirname(os.path.abspath(__file__)))
 from growth import P, sym, padd, pmul, lean_of, ast_of, strip, functions_of, contains, Unsupported, REPO
 
 SITES = [
-    dict(name="libxml_child_results", file="src/libxml_reporter.c", func="insert_child_results", buf="childData", size="size", pos="pos", pre="True"),
-    dict(name="discoverer_line", file="tools/discoverer.c", func="read_whole_line", buf="*line", size="*size", pos="length", pre="3 ≤ s"),
+    # the buffer, its recorded size and the position in it are found from the loop itself (what realloc enlarges, by how much, and
+    # where the read continues), so renaming them is harmless
+    dict(name="libxml_child_results", file="src/libxml_reporter.c", func="insert_child_results", pre="True"),
+    dict(name="discoverer_line", file="tools/discoverer.c", func="read_whole_line", pre="3 ≤ s"),
 ]
 READERS = {"fread": ("ptr", 0, ("mul", 1, 2), 0), "fgets": ("ptr", 0, ("arg", 1), 1), "read_line": ("ptr", 1, ("arg", 2), 1)}   # pointer arg, bytes, terminator
 LOOPS = ("WhileStmt", "ForStmt", "DoStmt")
@@ -60,6 +62,7 @@ class Walk:
         self.guard = None
         self.reads = []
         self.fresh = 0
+        self.path_guards = []
 
     def val(self, key):
         if key not in self.env: self.env[key] = sym(key)
@@ -89,6 +92,18 @@ class Walk:
         if c.get("kind") == "BinaryOperator" and c.get("opcode") in CMP:
             try:
                 return [(c["opcode"], self.expr(c["inner"][0]), self.expr(c["inner"][1]))]
+            except Unsupported:
+                return []
+        return []
+
+    def negated(self, c):
+        c = strip(c)
+        if c.get("kind") == "BinaryOperator" and c.get("opcode") == "||":
+            return self.negated(c["inner"][0]) + self.negated(c["inner"][1])
+        if c.get("kind") == "BinaryOperator" and c.get("opcode") in CMP:
+            neg = {"==": "!=", "!=": "==", "<": ">=", ">=": "<", ">": "<=", "<=": ">"}[c["opcode"]]
+            try:
+                return [(neg, self.expr(c["inner"][0]), self.expr(c["inner"][1]))]
             except Unsupported:
                 return []
         return []
@@ -142,6 +157,8 @@ class Walk:
                 self.guard = g[0]
                 if self.grow: self.stmt(then)
             elif is_bailout(then):
+                # past `if (A || B) break;` neither A nor B holds
+                self.path_guards += self.negated(cnd)
                 return
             else:
                 raise Unsupported("an if statement that is neither the growth guard nor a bail-out")
@@ -152,7 +169,14 @@ class Walk:
                 return
             self.assign_from(key, n["inner"][1])
         elif k == "CompoundAssignOperator":
-            key = path(n["inner"][0]); rhs = self.expr(n["inner"][1]); old = self.val(key); op = n.get("opcode")
+            key = path(n["inner"][0]); op = n.get("opcode")
+            call = find(strip(n["inner"][1]), lambda m: m.get("kind") == "CallExpr")
+            if call is not None and callee(call) in READERS and op == "+=":      # pos += fread(...)
+                old = self.val(key)
+                self.read("__read_result", call)
+                self.env[key] = padd(old, self.env.pop("__read_result"))
+                return
+            rhs = self.expr(n["inner"][1]); old = self.val(key)
             if op == "<<=" and strip(n["inner"][1]).get("kind") == "IntegerLiteral": self.env[key] = pmul(old, P(2 ** int(strip(n["inner"][1])["value"])))
             elif op in ("+=", "-=", "*="): self.env[key] = padd(old, rhs) if op == "+=" else padd(old, rhs, -1) if op == "-=" else pmul(old, rhs)
             else: raise Unsupported("operator " + op)
@@ -171,20 +195,45 @@ def analyse(site, funcs):
     li = next((i for i, c in enumerate(stmts) if c.get("kind") in LOOPS), None)
     if li is None: raise Unsupported("no loop found")
     loop = stmts[li]
+    parts0 = loop["inner"]
+    lbody0 = parts0[1] if loop["kind"] == "WhileStmt" else parts0[0] if loop["kind"] == "DoStmt" else parts0[4]
+    grow_call = find(lbody0, lambda m: callee(m) == "realloc")
+    if grow_call is None: raise Unsupported("the loop does not enlarge a buffer with realloc")
+    probe = Walk(dict(buf="?"), True, {}, P())
+    site = dict(site)
+    site["buf"] = path(grow_call["inner"][1])
+    szs = sorted({x for m in probe.expr(grow_call["inner"][2]) for x in m})
+    if len(szs) != 1: raise Unsupported("the size requested from realloc depends on " + str(szs))
+    site["size"] = szs[0]
+    rd = find(lbody0, lambda m: callee(m) in READERS)
+    if rd is None: raise Unsupported("no read into the buffer found in the loop")
+    ptr = strip(rd["inner"][1:][READERS[callee(rd)][1]])
+    if not (ptr.get("kind") == "BinaryOperator" and ptr.get("opcode") == "+"): raise Unsupported("the read in the loop does not continue behind what is there")
+    l_, r_ = ptr["inner"]
+    try:
+        site["pos"] = path(r_) if path(l_) == site["buf"] else path(l_) if path(r_) == site["buf"] else None
+    except Unsupported:
+        site["pos"] = None
+    if site["pos"] is None: raise Unsupported("the read in the loop goes somewhere else than into the buffer that is enlarged")
     # before the loop: from the caller's contract (a buffer recorded as s bytes, a >= s allocated) or from the function's own malloc
     pre = Walk(site, True, {site["size"]: sym("s"), site["pos"]: sym("p")}, sym("a"))
-    for c in stmts[:li]: pre.stmt(c)
+    for c in stmts[:li]:
+        pre.stmt(c)
+        sz = pre.env.get(site["size"])
+        if sz is not None and any(x not in ("p", "s", "a") and not x.startswith("r") for m in sz for x in m):
+            pre.env[site["size"]] = sym("s")        # taken over from the caller (`int capacity = *size;`): a buffer recorded as s bytes
     parts = loop["inner"]
     if loop["kind"] == "WhileStmt": cnd, lbody = parts[0], parts[1]
     elif loop["kind"] == "DoStmt": lbody, cnd = parts[0], parts[1]
     else: cnd, lbody = parts[2], parts[4]
-    res = {"pre": pre}
+    res = {"pre": pre, "site": site}
     for grow in (True, False):
         w = Walk(site, grow, {site["size"]: sym("s"), site["pos"]: sym("p")}, sym("a"))
         w.loop_guards = [g for g in (w.cond(cnd) if isinstance(cnd, dict) and cnd else [])
                          if all(x in NAMES for side in g[1:] for m in side for x in m)]      # only what is about position and size
         w.stmt(lbody)
         if not w.reads: raise Unsupported("no read into the buffer found in the loop")
+        w.loop_guards += [g for g in w.path_guards if all(x in NAMES for side in g[1:] for m in side for x in m)]
         res[grow] = w
     post = Walk(site, True, {site["size"]: sym("s"), site["pos"]: sym("p")}, sym("a"))
     idx = []
@@ -200,6 +249,29 @@ def analyse(site, funcs):
         sub(c)
     res["post_index"] = idx
     return res
+
+
+def initial_size(file="tools/discoverer.c", callee_name="read_whole_line"):
+    """the constant size of the buffer that the caller of `callee_name` hands over (its `&size` argument), after macro expansion"""
+    funcs = functions_of(ast_of(os.path.join(REPO, file)))
+    for name, f in funcs.items():
+        call = find(f, lambda m: callee(m) == callee_name)
+        if call is None or name == callee_name: continue
+        for arg in call["inner"][1:]:
+            a_ = strip(arg)
+            if a_.get("kind") == "UnaryOperator" and a_.get("opcode") == "&":
+                try:
+                    var = path(a_["inner"][0])
+                except Unsupported:
+                    continue
+                decl = find(f, lambda m: m.get("kind") == "VarDecl" and m.get("name") == var and m.get("type", {}).get("qualType") in ("int", "size_t", "unsigned int", "long", "unsigned long"))
+                if decl is None or not decl.get("inner"): continue
+                try:
+                    v = Walk(dict(buf="?"), True, {}, P()).expr(decl["inner"][-1])
+                except Unsupported:
+                    continue
+                if all(m == () for m in v): return v.get((), 0)
+    return None
 
 
 NAMES = {"p": "p", "s": "s", "a": "a"}
@@ -225,6 +297,78 @@ def guard_text(g, extra=()):
     return f"{ln(l, extra)} {CMP[op]} {ln(r, extra)}"
 
 
+BNAMES = {"p": "b.p", "s": "b.s", "a": "b.a"}
+
+
+def lb(p, extra=()):
+    """rendering over a `Buf` b"""
+    names = dict(BNAMES); names.update({r: r for r in extra})
+    for m in p:
+        for s_ in m:
+            if s_ not in names: raise Unsupported("the arithmetic depends on " + s_)
+    t = lean_of(p, names)
+    return f"({t})" if (" - " in t or " + " in t or " * " in t) else t
+
+
+def lb_nowrap(p, extra=()):
+    pos = {m: c for m, c in p.items() if c > 0}; neg = {m: -c for m, c in p.items() if c < 0}
+    return f"{lb(neg, extra)} ≤ {lb(pos, extra)}" if neg else None
+
+
+def lb_guard(g):
+    op, l, r = g
+    return f"{lb(l)} {CMP[op]} {lb(r)}"
+
+
+def lifted(L, nm, site, r):
+    """definitions of the loop as a transition system over `Cgreen.Loops.Buf` and the theorem that the one-turn facts hold in
+    every state of every execution (generic induction: `Cgreen.Loops.always'`)"""
+    g, k = r[True], r[False]
+    has_guard = g.guard is not None
+    loops = [lb_guard(x) for x in g.loop_guards]
+    if len(g.reads) != 1 or (has_guard and len(k.reads) != 1): raise Unsupported("more than one read per turn")
+    pre = site["pre"].replace("s", "b.s") if site["pre"] != "True" else None
+
+    def path_defs(w):
+        x = w.reads[0]
+        chars = lb(x["chars"])
+        end = f"⟨{lb(w.env[site['pos']], [x['r']])}, {lb(w.env[site['size']])}, {lb(w.alloc)}⟩"
+        facts = [f"{lb(x['off'])} + {lb(x['bytes'])} ≤ {lb(x['alloc'])}", lb_nowrap(x["bytes"]), lb_nowrap(x["chars"]), f"1 ≤ {chars}"]
+        return chars, end.replace(x["r"], "r"), " ∧ ".join(f for f in facts if f)
+    # the read result symbol is called r0 in each walk: rename to r
+    for w in (g, k):
+        for x in w.reads: pass
+    cg, eg, fg = path_defs(g)
+    eg = eg.replace("r0", "r")
+    if has_guard:
+        ck, ek, fk = path_defs(k); ek = ek.replace("r0", "r")
+    L.append(f"def {nm}_inv (b : Buf) : Prop := b.Inv" + (f" ∧ {pre}" if pre else ""))
+    if loops: L.append(f"def {nm}_loops (b : Buf) : Prop := " + " ∧ ".join(loops))
+    if loops: L.append(f"instance (b : Buf) : Decidable ({nm}_loops b) := by unfold {nm}_loops; infer_instance")
+    if has_guard:
+        L.append(f"def {nm}_grows (b : Buf) : Prop := {lb_guard(g.guard)}")
+        L.append(f"instance (b : Buf) : Decidable ({nm}_grows b) := by unfold {nm}_grows; infer_instance")
+    inner_chars = f"if {nm}_grows b then {cg} else {ck}" if has_guard else cg
+    inner_turn = f"if {nm}_grows b then {eg} else {ek}" if has_guard else eg
+    inner_good = f"({nm}_grows b → {fg}) ∧ (¬ {nm}_grows b → {fk})" if has_guard else fg
+    L.append(f"def {nm}_chars (b : Buf) : Nat := " + (f"if {nm}_loops b then ({inner_chars}) else 0" if loops else inner_chars))
+    L.append(f"def {nm}_turn (b : Buf) (r : Nat) : Buf := " + (f"if {nm}_loops b then ({inner_turn}) else b" if loops else inner_turn))
+    L.append(f"def {nm}_good (b : Buf) : Prop := " + (f"{nm}_loops b → ({inner_good})" if loops else inner_good))
+    unf_g = " ".join([f"{nm}_good"] + ([f"{nm}_loops"] if loops else []) + ([f"{nm}_grows"] if has_guard else []))
+    cases = " <;> ".join(([f"by_cases hl : {nm}_loops b"] if loops else []) + ([f"by_cases hg : {nm}_grows b"] if has_guard else []))
+    haves = "; ".join(([f"have hl' := hl; unfold {nm}_loops at hl'"] if loops else []) + ([f"have hg' := hg; unfold {nm}_grows at hg'"] if has_guard else []))
+    simps = ", ".join([f"{nm}_turn", f"{nm}_chars"] + (["hl"] if loops else []) + (["hg"] if has_guard else []) + ["↓reduceIte"])
+    body = f"({haves}; simp only [{simps}] at hr ⊢; omega)" if haves else f"(simp only [{simps}] at hr ⊢; omega)"
+    L += [f"/-- `{site['func']}`: in every state of every execution of the loop - whatever the stream delivers, turn by turn - the",
+          "invariant holds, every read stays inside the allocation, no length wraps around, and the read can deliver something. -/",
+          f"theorem {nm}_always : ∀ (rs : List Nat) (b : Buf), {nm}_inv b → Admissible {nm}_chars {nm}_turn b rs →",
+          f"    (∀ v ∈ visited {nm}_turn b rs, {nm}_inv v ∧ {nm}_good v) ∧ {nm}_inv (run {nm}_turn b rs) :=",
+          f"  always' {nm}_inv {nm}_chars {nm}_turn {nm}_good",
+          f"    (by intro b hb; unfold {nm}_inv Buf.Inv at hb; unfold {unf_g}; omega)",
+          f"    (by intro b r hb hr; unfold {nm}_inv Buf.Inv at *; " + (f"{cases} <;> {body})" if cases else f"{body[1:-1]})")]
+    return f"{nm}_always"
+
+
 def prove(L, name, vars_, hyps, concl, doc=None):
     concl = [c for c in concl if c != "True"] or ["True"]
     if doc: L.append(f"/-- {doc} -/")
@@ -234,7 +378,7 @@ def prove(L, name, vars_, hyps, concl, doc=None):
 
 
 def render():
-    L = ["/-! GENERATED by translate/readloops.py from /repo's current sources - do not edit. -/", "namespace Cgreen.Gen.ReadLoops", ""]
+    L = ["import CgreenModel.Lemmas.Loops", "/-! GENERATED by translate/readloops.py from /repo's current sources - do not edit. -/", "namespace Cgreen.Gen.ReadLoops", "open Cgreen.Loops", ""]
     thms, problems = [], []
     for site in SITES:
         nm = site["name"]
@@ -242,6 +386,7 @@ def render():
             funcs = functions_of(ast_of(os.path.join(REPO, site["file"])))
             if site["func"] not in funcs: raise Unsupported("function not found")
             r = analyse(site, funcs)
+            site = r["site"]
             pre = r["pre"]
             rs = [x["r"] for x in pre.reads]
             # ---- entry: what happens before the loop establishes the invariant ----
@@ -271,6 +416,7 @@ def render():
                 t = f"{nm}_{'grow' if grow else 'keep'}"
                 prove(L, t, vars_, hyps, concl, f"one turn of the loop, {'enlarging the buffer' if grow else 'in the buffer as it is'}: every read inside the allocation, no wrap-around, progress, invariant.")
                 thms.append(t)
+            thms.append(lifted(L, nm, site, r))
             for k, ix in enumerate(r["post_index"]):
                 t = f"{nm}_after_{k}"
                 L += [f"theorem {t} : ∀ p s a : Nat, p + 1 ≤ s → s ≤ a → {ln(ix)} < a := by", "  intros; omega"]
